@@ -10,9 +10,10 @@ SRV = "kconfserver.core"
 
 
 class Prop:
-    def __init__(self, sidecars=(), prove=(), bounded=(), level="proof", explanation="", assumptions=()):
+    def __init__(self, sidecars=(), prove=(), bounded=(), level="proof", explanation="", assumptions=(), thorough=()):
         self.sidecars = list(sidecars)
         self.prove = list(prove)
+        self.prove_thorough = list(thorough)  # additional proof targets of the thorough tier (too slow for every change)
         self.bounded = list(bounded)  # names of rtc driver modules
         self.level = level
         self.explanation = explanation
@@ -36,10 +37,14 @@ MUTATORS = [f"{K}:Symbol._rec_invalidate_if_has_prompt", f"{K}:Symbol.value_is_v
             f"{K}:Symbol.unset_value", f"{K}:Choice.set_value", f"{K}:Choice.unset_value", f"{K}:_restore_default"]
 
 PROPS = {
-    "C01": Prop(EVAL_SIDECARS, EVALUATORS + STR_VALUE, ["drv_eval"], level="proof",
-                explanation="every evaluator (expr_value, _visibility, bool_value, str_value for all five types) is proved "
-                            "equal to the spec function transcribed from the statement; the propagation of inherited "
-                            "dependencies into prompt conditions (finalisation) is covered by the bounded stand-in"),
+    "C01": Prop(EVAL_SIDECARS, EVALUATORS + [f"{K}:Symbol.str_value#{c}" for c in ("*", "bool_unknown", "string")],
+                ["drv_eval"], level="other", thorough=[f"{K}:Symbol.str_value#{c}" for c in NUM_CASES],
+                explanation="quick tier: expr_value, _visibility, Symbol/Choice.visibility, bool_value and the bool / string "
+                            "branches of str_value are proved equal to the spec function transcribed from the statement "
+                            "(precedence, select / imply, hidden user value); the twelve numeric cases of str_value "
+                            "(int / hex / float x forced / user / default with and without range) are proved in the thorough "
+                            "tier only (minutes of VC generation each); the propagation of inherited dependencies into "
+                            "prompt conditions (finalisation) is covered by the bounded stand-in"),
     "C02": Prop(RENDER_SIDECARS, RENDER[:3], ["drv_loadsave"], level="other",
                 explanation="line format, quoting map and marker predicate proved; write∘load fix-point bounded"),
     "C03": Prop(MUT_SIDECARS, MUTATORS, ["drv_eval"], level="other",
@@ -53,10 +58,12 @@ PROPS = {
                 ["drv_eval"], level="proof",
                 explanation="selection rule and member values proved against the statement's three-step rule"),
     "C06": Prop(RENDER_SIDECARS + ["contracts.c_mut"],
-                STR_VALUE_NUM + [f"{K}:Symbol.value_is_valid", f"{K}:Symbol.set_value", f"{K}:Kconfig._header_string"],
-                ["drv_eval"], level="proof",
-                explanation="numeric branches of str_value proved well-formed / clamped against the spec; accepted user values "
-                            "proved well-formed at the store; generators bounded"),
+                [f"{K}:Symbol.str_value#*", f"{K}:Symbol.value_is_valid", f"{K}:Symbol.set_value", f"{K}:Kconfig._header_string"],
+                ["drv_eval"], level="other", thorough=[f"{K}:Symbol.str_value#{c}" for c in NUM_CASES],
+                explanation="quick tier: accepted user values proved well-formed at the store (value_is_valid, set_value, float "
+                            "normalisation), the header renderer proved against the one-entry spec, exhaustiveness of the "
+                            "str_value case split; the numeric branches of str_value (well-formed result, clamping into the "
+                            "active range) are proved in the thorough tier only; generators bounded"),
     "C07": Prop(RENDER_SIDECARS, [f"{K}:Symbol.config_string", f"{K}:Kconfig._header_string", f"{K}:_escape"],
                 ["drv_outputs"], level="other",
                 explanation="sdkconfig and header entries proved equal to one spec of (written?, type, value); CMake / JSON / "
@@ -66,8 +73,17 @@ PROPS = {
     "C09": Prop([], [], ["drv_eval"], level="other", explanation="loop rejection and exception-freedom bounded"),
     "C10": Prop([], [], ["drv_loadsave"], level="other", explanation="reconstruction bounded"),
     "C11": Prop([], [], ["drv_loadsave"], level="other", explanation="rename resolution bounded"),
-    "C12": Prop([], [], ["drv_outputs"], level="other", explanation="touch decision, idempotence and crash clause bounded"),
-    "C13": Prop([], [], ["drv_outputs"], level="other", explanation="write-only-on-change and backup crash clause bounded"),
+    "C12": Prop(["contracts.kschema", "contracts.c_files"], [f"{K}:Kconfig._contents_eq", f"{K}:Kconfig._write_if_changed"],
+                ["drv_outputs"], level="other",
+                explanation="_write_if_changed (no write effect when unchanged) proved over the file-system effect model; "
+                            "touch decision, idempotence and the crash clause bounded"),
+    "C13": Prop(["contracts.kschema", "contracts.c_files"],
+                [f"{K}:Kconfig._contents_eq", f"{K}:Kconfig._write_if_changed", f"{K}:_save_old", f"{K}:Kconfig.write_config"],
+                ["drv_outputs"], level="other",
+                explanation="over the file-system effect model (pyvc/effects.py): _contents_eq is exact, _write_if_changed and "
+                            "write_config perform no write effect when the destination already holds the text, and the effects "
+                            "of a save are [backup effect on <file>.old]? . truncate . write -- nothing touches the file before "
+                            "the backup effect; kconfgen's writers, mtimes and the crash clause on a real file system bounded"),
     "C14": Prop(["contracts.c_server"], [f"{SRV}:diff"], ["drv_server"], level="other",
                 explanation="diff(before, after) proved to carry exactly the new / changed entries of `after`; the "
                             "client-sync invariant over whole request histories and the restart clause are bounded"),
